@@ -3,8 +3,13 @@
 repository under test with `ast`, rendered as Coq terms over Flocq's binary64 rounding -> coq/Generated/TablesTime.v.
 
   Timeline.tick_duration  (property)          -> src_tick_duration  tpb     : R
-  Timeline.tick:  self.current_time = ...     -> src_timeline_step  tpb t   : R
+  Timeline.tick:  self.current_time = ...     -> src_timeline_step  tpb t   : R        (shape A: absolute grid, before C01-retick-snap)
   Track.tick:     self.current_time = ...     -> src_track_step     tpb t   : R
+  or (shape B: relative grid, repair C01-retick-snap)
+  isobar/util.py: advance_on_tick_grid (BODY) -> src_advance        t tpb origin g : R * (R * Z)      (g : option Z, the grid's resolution or None)
+  Timeline.tick / Track.tick:  self.current_time, self._tick_grid = advance_on_tick_grid(self.current_time, <tpb>, self._tick_grid)
+                                              -> src_timeline_step / src_track_step  tpb c : R * (R * option Z)   (c = (time, grid))
+                                                 src_tick_grid_init = (0, None)  (both __init__s: self._tick_grid = (0.0, None))
   Track.tick:     if/while <due test>         -> src_track_due      t x     : bool   (t = self.current_time, x = self.next_event_time)
   Track.process_note_offs:  if <due test>     -> src_noteoff_due    ts t    : bool   (ts = note_off.timestamp)
   Timeline.tick:  if <due test> (actions)     -> src_action_due     a t     : bool   (a = action.time)
@@ -14,6 +19,10 @@ Semantics used by the translation (CPython on IEEE-754 binary64, round-to-neares
   * `a + b`, `a * b`, `a / b` with a float operand, and int / int true division, are ONE correctly rounded operation:
     RN (a op b);
   * `round(x)` (one argument) of a float is the nearest integer, ties to even: IZR (pyround x);
+  * in advance_on_tick_grid: int + int is exact (Z); float - int / float * int convert the int exactly; `abs` is exact (Rabs);
+    the literal 1e-6 is the double nearest to 10^-6: RN (1 / 10 ^ 6); `a != b` on ints: negb (a =? b); `x > y` on floats:
+    Rlt_bool y x; `or`: orb (no side effects); `x is None` on the grid's resolution: match on option Z; `if` forks the
+    symbolic execution (the rest of the body is translated under each branch), so no value of mixed type is ever merged;
   * `round(x, 8)` of a float is correctly rounded to 8 decimals: py_round8 x (Base/FloatRound8.v);
   * `a >= b` / `a <= b` between floats, or a float and the int literal 0, compares the exact values: Rle_bool b a / Rle_bool a b
     (-0.0 >= 0 is True in Python, as in the reals); the time attributes named above hold floats;
@@ -154,6 +163,207 @@ def due_test(fn, key, env, expected_kinds):
     return terms.pop()
 
 
+
+# ---------------------------------------------------------------------------------------------------------------------
+# shape B: the relative tick grid.  A small symbolic executor for the body of isobar.util.advance_on_tick_grid.
+# values: ("float", R-term) | ("int", Z-term) | ("optint", name) | ("none",) | ("tuple", [values])
+
+def as_R(v, what):
+    if v[0] == "float":
+        return v[1]
+    if v[0] == "int":
+        return "(IZR %s)" % v[1]
+    raise Reject("%s: a number is expected, got %s" % (what, v[0]))
+
+
+def ex(n, env):
+    if isinstance(n, ast.Name):
+        if n.id not in env:
+            raise Reject("unknown name " + n.id)
+        return env[n.id]
+    if isinstance(n, ast.Constant):
+        if n.value is None:
+            return ("none",)
+        if type(n.value) is int and abs(n.value) < 2 ** 31:
+            return ("int", "(%d)" % n.value)
+        if type(n.value) is float and n.value == 1e-6:
+            return ("float", "(RN (1 / 10 ^ 6))")
+        if type(n.value) is float and n.value == int(n.value) and abs(n.value) < 2 ** 31:
+            return ("float", "(IZR (%d))" % int(n.value))
+        raise Reject("constant not understood: " + ast.unparse(n))
+    if isinstance(n, ast.Call) and isinstance(n.func, ast.Name) and not n.keywords and len(n.args) == 1:
+        a = ex(n.args[0], env)
+        if n.func.id == "round":
+            if a[0] == "float":
+                return ("int", "(pyround %s)" % a[1])
+            if a[0] == "int":
+                return a
+            raise Reject("round() of " + a[0])
+        if n.func.id == "abs" and a[0] == "float":
+            return ("float", "(Rabs %s)" % a[1])
+        raise Reject("call not understood: " + ast.unparse(n))
+    if isinstance(n, ast.BinOp) and type(n.op) in (ast.Add, ast.Sub, ast.Mult, ast.Div):
+        a, b = ex(n.left, env), ex(n.right, env)
+        op = {ast.Add: "+", ast.Sub: "-", ast.Mult: "*", ast.Div: "/"}[type(n.op)]
+        if a[0] == "int" and b[0] == "int" and type(n.op) is not ast.Div:
+            return ("int", "(%s %s %s)%%Z" % (a[1], op, b[1]))
+        return ("float", "(RN (%s %s %s))" % (as_R(a, ast.unparse(n)), op, as_R(b, ast.unparse(n))))
+    raise Reject("expression not understood: " + ast.unparse(n))
+
+
+def cond(n, env):
+    """-> ("bool", term) | ("isnone", python name, coq name)"""
+    if isinstance(n, ast.BoolOp) and type(n.op) in (ast.Or, ast.And):
+        parts = [cond(v, env) for v in n.values]
+        if any(p[0] != "bool" for p in parts):
+            raise Reject("`is None` inside and/or")
+        f = "orb" if type(n.op) is ast.Or else "andb"
+        term = parts[0][1]
+        for p in parts[1:]:
+            term = "(%s %s %s)" % (f, term, p[1])
+        return ("bool", term)
+    if isinstance(n, ast.Compare) and len(n.ops) == 1 and len(n.comparators) == 1:
+        op, l, r = type(n.ops[0]), n.left, n.comparators[0]
+        if op is ast.Is and isinstance(l, ast.Name) and isinstance(r, ast.Constant) and r.value is None:
+            v = env.get(l.id)
+            if v is None or v[0] != "optint":
+                raise Reject("`is None` on something that is not the grid's resolution")
+            return ("isnone", l.id, v[1])
+        a, b = ex(l, env), ex(r, env)
+        if a[0] == "int" and b[0] == "int" and op in (ast.NotEq, ast.Eq):
+            t = "(%s =? %s)%%Z" % (a[1], b[1])
+            return ("bool", "(negb %s)" % t if op is ast.NotEq else t)
+        if "float" in (a[0], b[0]) and op in (ast.Gt, ast.Lt, ast.GtE, ast.LtE):
+            A, B = as_R(a, ast.unparse(n)), as_R(b, ast.unparse(n))
+            return ("bool", {ast.Gt: "(Rlt_bool %s %s)" % (B, A), ast.Lt: "(Rlt_bool %s %s)" % (A, B),
+                             ast.GtE: "(Rle_bool %s %s)" % (B, A), ast.LtE: "(Rle_bool %s %s)" % (A, B)}[op])
+    raise Reject("condition not understood: " + ast.unparse(n))
+
+
+def assign(target, value, env):
+    env = dict(env)
+    if isinstance(target, ast.Name):
+        env[target.id] = value
+        return env
+    if isinstance(target, ast.Tuple) and all(isinstance(e, ast.Name) for e in target.elts):
+        if value[0] != "tuple" or len(value[1]) != len(target.elts):
+            raise Reject("tuple assignment of a non-tuple")
+        for e, v in zip(target.elts, value[1]):
+            env[e.id] = v
+        return env
+    raise Reject("assignment target not understood: " + ast.unparse(target))
+
+
+def ex_any(n, env):
+    if isinstance(n, ast.Tuple):
+        return ("tuple", [ex_any(e, env) for e in n.elts])
+    return ex(n, env)
+
+
+def run_body(stmts, env, depth=0):
+    """symbolic execution of a statement list ending in `return (time, (origin, resolution))` -> Coq term : R * (R * Z)"""
+    if depth > 8:
+        raise Reject("too many nested forks")
+    if not stmts:
+        raise Reject("the function can fall off its end")
+    st, rest = stmts[0], stmts[1:]
+    if isinstance(st, ast.Expr) and isinstance(st.value, ast.Constant) and isinstance(st.value.value, str):
+        return run_body(rest, env, depth)
+    if isinstance(st, ast.Assign) and len(st.targets) == 1:
+        return run_body(rest, assign(st.targets[0], ex_any(st.value, env), env), depth)
+    if isinstance(st, ast.If):
+        c = cond(st.test, env)
+        if c[0] == "bool":
+            return "(if %s then %s else %s)" % (c[1], run_body(st.body + rest, env, depth + 1), run_body(st.orelse + rest, env, depth + 1))
+        _, pyname, coqname = c
+        env_none, env_some = dict(env), dict(env)
+        env_none[pyname] = ("none",)
+        env_some[pyname] = ("int", coqname + "0")
+        return "(match %s with None => %s | Some %s0 => %s end)" % (
+            coqname, run_body(st.body + rest, env_none, depth + 1), coqname, run_body(st.orelse + rest, env_some, depth + 1))
+    if isinstance(st, ast.Return) and st.value is not None:
+        v = ex_any(st.value, env)
+        if not (v[0] == "tuple" and len(v[1]) == 2 and v[1][0][0] == "float" and v[1][1][0] == "tuple" and len(v[1][1][1]) == 2
+                and v[1][1][1][0][0] == "float" and v[1][1][1][1][0] == "int"):
+            raise Reject("return value is not (float, (float, int)): " + ast.unparse(st.value))
+        return "(%s, (%s, %s))" % (v[1][0][1], v[1][1][1][0][1], v[1][1][1][1][1])
+    raise Reject("statement not understood: " + ast.unparse(st).splitlines()[0])
+
+
+ADVANCE = "advance_on_tick_grid"
+
+
+def advance_function(util_tree):
+    fns = [n for n in ast.walk(util_tree) if isinstance(n, (ast.FunctionDef, ast.AsyncFunctionDef, ast.ClassDef)) and n.name == ADVANCE]
+    tops = [n for n in util_tree.body if isinstance(n, ast.FunctionDef) and n.name == ADVANCE]
+    if len(fns) != 1 or len(tops) != 1:
+        raise Reject("isobar/util.py: %d definitions of %s" % (len(fns), ADVANCE))
+    fn = tops[0]
+    a = fn.args
+    if (len(a.args) != 3 or a.posonlyargs or a.kwonlyargs or a.vararg or a.kwarg or a.defaults or fn.decorator_list):
+        raise Reject(ADVANCE + ": unexpected signature")
+    t, tpb, grid = [x.arg for x in a.args]
+    env = {t: ("float", "t"), tpb: ("int", "tpb"), grid: ("tuple", [("float", "origin"), ("optint", "g")])}
+    return run_body(fn.body, env)
+
+
+def targets_of(st):
+    if isinstance(st, ast.Assign):
+        out = []
+        for t in st.targets:
+            out += t.elts if isinstance(t, ast.Tuple) else [t]
+        return out
+    if isinstance(st, (ast.AnnAssign, ast.AugAssign)):
+        return [st.target]
+    return []
+
+
+def grid_step_call(module, cls):
+    """shape B in `cls.tick`?  None if current_time is not assigned through advance_on_tick_grid; otherwise check
+    everything about the call and the initialisation and return True"""
+    fn = find_def(cls, "tick")
+    hits = [st for st in ast.walk(fn) if any(is_self_attr(t, "current_time") for t in targets_of(st))]
+    calls = [st for st in hits if isinstance(st, ast.Assign) and isinstance(st.value, ast.Call)
+             and isinstance(st.value.func, ast.Name) and st.value.func.id == ADVANCE]
+    if not calls:
+        if any(isinstance(m, ast.Name) and m.id == ADVANCE for m in ast.walk(cls)):
+            raise Reject("%s: %s is used, but not to assign current_time in tick" % (cls.name, ADVANCE))
+        return None
+    if len(hits) != 1:
+        raise Reject("%s.tick: %d assignments to self.current_time (expected exactly one)" % (cls.name, len(hits)))
+    st = calls[0]
+    tg = st.targets[0] if len(st.targets) == 1 else None
+    if not (isinstance(tg, ast.Tuple) and len(tg.elts) == 2 and is_self_attr(tg.elts[0], "current_time") and is_self_attr(tg.elts[1], "_tick_grid")):
+        raise Reject("%s.tick: the result of %s is not assigned to (self.current_time, self._tick_grid)" % (cls.name, ADVANCE))
+    c = st.value
+    if not (len(c.args) == 3 and not c.keywords and is_self_attr(c.args[0], "current_time") and is_tpb(c.args[1], set())
+            and is_self_attr(c.args[2], "_tick_grid")):
+        raise Reject("%s.tick: unexpected arguments: %s" % (cls.name, ast.unparse(c)))
+    # the name must be the function of isobar/util.py
+    imps = [a for n in ast.walk(module) if isinstance(n, ast.ImportFrom) and n.module == "util" and n.level == 2 for a in n.names
+            if a.name == ADVANCE and a.asname is None]
+    rebinds = [n for n in ast.walk(module) if (isinstance(n, (ast.FunctionDef, ast.ClassDef)) and n.name == ADVANCE)
+               or (isinstance(n, ast.Name) and n.id == ADVANCE and not isinstance(n.ctx, ast.Load))]
+    if len(imps) != 1 or rebinds:
+        raise Reject("%s: %s is not (only) `from ..util import %s`" % (cls.name, ADVANCE, ADVANCE))
+    # self._tick_grid: assigned in __init__ to (0.0, None), in tick by the call, nowhere else in the class
+    sets = [s2 for s2 in ast.walk(cls) if any(is_self_attr(t, "_tick_grid") for t in targets_of(s2))]
+    inits = [s2 for s2 in ast.walk(find_def(cls, "__init__")) if any(is_self_attr(t, "_tick_grid") for t in targets_of(s2))]
+    if len(sets) != 2 or len(inits) != 1 or st not in sets:
+        raise Reject("%s: self._tick_grid is assigned in %d places (expected: __init__ and tick)" % (cls.name, len(sets)))
+    v = inits[0].value
+    if not (isinstance(inits[0], (ast.Assign, ast.AnnAssign)) and isinstance(v, ast.Tuple) and len(v.elts) == 2
+            and isinstance(v.elts[0], ast.Constant) and type(v.elts[0].value) is float and v.elts[0].value == 0.0
+            and isinstance(v.elts[1], ast.Constant) and v.elts[1].value is None):
+        raise Reject("%s.__init__: self._tick_grid is not initialised to (0.0, None)" % cls.name)
+    # self.current_time starts at 0 / 0.0
+    t0 = [s2 for s2 in ast.walk(find_def(cls, "__init__")) if any(is_self_attr(t, "current_time") for t in targets_of(s2))]
+    if not (len(t0) == 1 and isinstance(t0[0], (ast.Assign, ast.AnnAssign)) and isinstance(t0[0].value, ast.Constant)
+            and type(t0[0].value.value) in (int, float) and t0[0].value.value == 0):
+        raise Reject("%s.__init__: self.current_time is not initialised to 0" % cls.name)
+    return True
+
+
 def main(out_path):
     repo = os.environ.get("PYTHONPATH", "/repo").split(":")[0]
     tl = ast.parse(open(os.path.join(repo, "isobar", "timelines", "timeline.py")).read())
@@ -173,8 +383,22 @@ def main(out_path):
     if not (len(body) == 1 and isinstance(body[0], ast.Return) and isinstance(body[0].value, ast.Attribute)
             and body[0].value.attr == "tick_duration" and is_self_attr(body[0].value.value, "timeline")):
         raise Reject("Track.tick_duration does not return self.timeline.tick_duration")
-    tl_step = time_assignment(find_def(Timeline, "tick"))
-    tk_step = time_assignment(find_def(Track, "tick"))
+    shape_b = (grid_step_call(tl, Timeline), grid_step_call(tk, Track))
+    if shape_b == (True, True):
+        ut = ast.parse(open(os.path.join(repo, "isobar", "util.py")).read())
+        adv = advance_function(ut)
+        step = ("let '(t, (o, g)) := c in let '(t', (o', g')) := src_advance t tpb o g in (t', (o', Some g'))")
+        steps = ("Definition src_advance (t : R) (tpb : Z) (origin : R) (g : option Z) : R * (R * Z) :=\n  %s.\n"
+                 "Definition src_tick_grid_init : R * option Z := (0, None).\n"
+                 "Definition src_timeline_step (tpb : Z) (c : R * (R * option Z)) : R * (R * option Z) :=\n  %s.\n"
+                 "Definition src_track_step (tpb : Z) (c : R * (R * option Z)) : R * (R * option Z) :=\n  %s.\n" % (adv, step, step))
+    elif shape_b == (None, None):
+        tl_step = time_assignment(find_def(Timeline, "tick"))
+        tk_step = time_assignment(find_def(Track, "tick"))
+        steps = ("Definition src_timeline_step (tpb : Z) (t : R) : R := %s.\n"
+                 "Definition src_track_step (tpb : Z) (t : R) : R := %s.\n" % (tl_step, tk_step))
+    else:
+        raise Reject("Timeline.tick and Track.tick advance their clocks in different ways")
     is_next = lambda n: is_self_attr(n, "next_event_time")
     is_ts = lambda n: is_name_attr(n, "note_off", "timestamp")
     is_at = lambda n: is_name_attr(n, "action", "time")
@@ -187,12 +411,11 @@ def main(out_path):
             "From Isobar Require Import Base.FloatGrid Base.FloatRound8.\n"
             "Open Scope R_scope.\n\n"
             "Definition src_tick_duration (tpb : Z) : R := %s.\n"
-            "Definition src_timeline_step (tpb : Z) (t : R) : R := %s.\n"
-            "Definition src_track_step (tpb : Z) (t : R) : R := %s.\n"
+            "%s"
             "Definition src_track_due (t x : R) : bool := %s.\n"
             "Definition src_noteoff_due (ts t : R) : bool := %s.\n"
             "Definition src_action_due (a t : R) : bool := %s.\n"
-            % (dur, tl_step, tk_step, track_due, noteoff_due, action_due))
+            % (dur, steps, track_due, noteoff_due, action_due))
     old = open(out_path).read() if os.path.exists(out_path) else None
     if old != text:
         tmp = out_path + ".tmp%d" % os.getpid()
